@@ -96,6 +96,7 @@ impl Gates {
 
 enum Cmd {
     Run,
+    RunBad,
     Cont,
     Add(String),
     Del(String),
@@ -117,7 +118,13 @@ fn controller(cap: usize, input: String, cmds: Receiver<Cmd>, replies: Sender<Re
             Cmd::Run => {
                 let (tx, rx) = sync_channel(cap);
                 replies.send(Reply::NewChannel(rx)).unwrap();
-                format!("{:?}", ctx.run("top", tx).map_err(|e| e.to_string()))
+                format!("{:?}", ctx.run("top", tx).map_err(|e| format!("{e:?}")))
+            }
+            Cmd::RunBad => {
+                // a rule the grammar does not define: the parser thread reports the entry and then panics
+                let (tx, rx) = sync_channel(cap);
+                replies.send(Reply::NewChannel(rx)).unwrap();
+                format!("{:?}", ctx.run("no_such_rule", tx).map_err(|e| format!("{e:?}")))
             }
             Cmd::Cont => format!("{:?}", ctx.cont().map_err(|e| e.to_string())),
             Cmd::Add(r) => {
@@ -189,7 +196,14 @@ fn replay(beh: &Value, input: &str, cap: usize, ents: &[(String, usize)], fin: &
         loop {
             match rep_rx.recv_timeout(wait.saturating_sub(t0.elapsed())) {
                 Ok(Reply::NewChannel(rx)) => receivers.push(rx),
-                Ok(Reply::Done(r)) => return Some(r),
+                Ok(Reply::Done(r)) => {
+                    // a run() that failed in join (the previous thread had panicked) started no session:
+                    // the channel handed over for it belongs to no run
+                    if r.contains("PreviousRunPanic") {
+                        receivers.pop();
+                    }
+                    return Some(r);
+                }
                 Err(_) => return None,
             }
         }
@@ -201,7 +215,7 @@ fn replay(beh: &Value, input: &str, cap: usize, ents: &[(String, usize)], fin: &
         if who == "ctl" {
             match act {
                 "cmd" => {
-                    let c = if st["data"] == "run" { Cmd::Run } else { Cmd::Cont };
+                    let c = if st["data"] == "run" { Cmd::Run } else if st["data"] == "runbad" { Cmd::RunBad } else { Cmd::Cont };
                     ctx_tx.send(c).unwrap();
                     cmd_open = true;
                 }
@@ -246,7 +260,7 @@ fn replay(beh: &Value, input: &str, cap: usize, ents: &[(String, usize)], fin: &
                         Some(n) if n == gate => {
                             gates.release("ctl");
                             // the action is over when the thread stands at its next point (or the command returned)
-                            let last = matches!(gate, "Spawn" | "ContUnpark") || (gate == "ContLoad" && st["data"] != "ok");
+                            let last = matches!(gate, "Spawn" | "ContUnpark") || (gate == "ContLoad" && st["data"] != "ok") || (gate == "RunJoin" && st["data"] == "panic");
                             if !last && gates.wait_any("ctl", t5).is_none() {
                                 problem = Some(fail(format!("controller did not reach its next point within 5 s after {gate}")));
                                 break 'steps;
@@ -261,7 +275,7 @@ fn replay(beh: &Value, input: &str, cap: usize, ents: &[(String, usize)], fin: &
                             break 'steps;
                         }
                     }
-                    let last = matches!(gate, "Spawn" | "ContUnpark") || (gate == "ContLoad" && st["data"] != "ok");
+                    let last = matches!(gate, "Spawn" | "ContUnpark") || (gate == "ContLoad" && st["data"] != "ok") || (gate == "RunJoin" && st["data"] == "panic");
                     if last {
                         if drain(&rep_rx, &mut receivers, t5).is_none() {
                             problem = Some(fail(format!("the command did not return after {gate}")));
@@ -278,8 +292,10 @@ fn replay(beh: &Value, input: &str, cap: usize, ents: &[(String, usize)], fin: &
                 match gates.wait_any(&key, t5) {
                     Some(n) if n == act => {
                         gates.release(&key);
-                        // the action is over when the thread stands at its next point (Exit has none)
-                        if act != "Exit" && gates.wait_any(&key, t5).is_none() {
+                        // the action is over when the thread stands at its next point (Exit has none, nor has the
+                        // lookup after which a thread started on an undefined rule panics)
+                        let dies = act == "Exit" || (act == "Lookup" && st["data"] == "panic");
+                        if !dies && gates.wait_any(&key, t5).is_none() {
                             problem = Some(fail(format!("parser thread {key} did not reach its next point within 5 s after {act}")));
                             break 'steps;
                         }
